@@ -528,6 +528,20 @@ func arithFingerprint(prog *Program, pk *packages.Package, node ast.Node, contVa
 					}
 				}
 			}
+		case *ast.ExprStmt:
+			// a method fed the dispatched byte (p.num.AddFrac(b), p.num.AddDigit(b)): which method a copy calls decides
+			// what the byte contributes
+			if call, ok := x.X.(*ast.CallExpr); ok && len(call.Args) == 1 {
+				if sel, ok := call.Fun.(*ast.SelectorExpr); ok {
+					if id, ok := ast.Unparen(call.Args[0]).(*ast.Ident); ok {
+						if t := info.TypeOf(id); t != nil {
+							if b, isB := t.Underlying().(*types.Basic); isB && b.Kind() == types.Uint8 {
+								set[cur+"call "+sel.Sel.Name+"(byte)"]++
+							}
+						}
+					}
+				}
+			}
 		case *ast.IncDecStmt:
 			// a counter or cursor moved outside a loop header (p.mi++): which branch moves it matters
 			if t := info.TypeOf(x.X); t != nil {
